@@ -93,7 +93,7 @@ HARNESSES = [
          configs=legacy_cfgs(), unwind=40,
          bound="N=16 positions, start in {0,1}, pad 0..3; every byte of the bit array symbolic; no cluster granularity (32-bit bitmaps have none)"),
     dict(name="ba_find", src="ba_find.c", extra_src=["lib/ext2fs/bitops.c"],
-         funcs=["ba_find_first_zero", "ba_find_first_set"],
+         funcs=["ba_find_first_zero"],
          configs=[{"WANT": 0}, {"WANT": 1}],
          unwind=10, unwindset=["main.%d:257" % i for i in range(5)], backends=["kissat", "default", "cadical"],
          bound="256-bit array (four aligned 64-bit words), every bit symbolic; any range [a, b]; bitmap start 0 or 1"),
